@@ -1453,6 +1453,7 @@ fn fam_random<T: Payload>(c: &Case, cx: &mut Ctx) -> Outcome {
         fill(&mut sc);
     }
     let mut live: Vec<usize> = vec![];
+    let mut short_waiters: Vec<(usize, Op)> = vec![];
     let mut closed = false;
     let mut stream_used = false;
     for _ in 0..nsteps {
@@ -1483,12 +1484,16 @@ fn fam_random<T: Payload>(c: &Case, cx: &mut Ctx) -> Outcome {
             let side = if recv_side { Side::R } else { Side::S };
             let shareable = if recv_side { !sc.main.receivers.is_empty() } else { !sc.main.senders.is_empty() };
             let asyncf = rng.chance(1, 2);
+            let short_timed = matches!(k, Op::SendTimeout(2000) | Op::SendOptTimeout(2000) | Op::RecvTimeout(2000));
             let w = if shareable && !matches!(k, Op::StreamNext) && rng.chance(1, 4) {
                 *cx.cells.entry("random/shared-handle-waiters".to_string()).or_insert(0) += 1;
                 sc.spawn_shared(side, vec![k])
             } else {
                 sc.spawn(side, asyncf, vec![k])
             };
+            if short_timed {
+                short_waiters.push((w, k));
+            }
             // either it returns at once, or it shows up in the wait list
             let t0 = std::time::Instant::now();
             let mut n = 0u32;
@@ -1575,6 +1580,20 @@ fn fam_random<T: Payload>(c: &Case, cx: &mut Ctx) -> Outcome {
         } else if r < 96 && !closed {
             sc.mexec(if rng.chance(1, 2) { Op::CloseS } else { Op::CloseR });
             closed = true;
+        }
+    }
+    // a waiter with a 2 ms deadline comes back on its own, whatever else is queued around it: by now its deadline
+    // passed long ago (generous watchdog, as for the stuck detectors; never under Miri)
+    if !cfg!(miri) {
+        for (w, k) in &short_waiters {
+            let t0 = std::time::Instant::now();
+            while !sc.worker_finished(*w) {
+                if t0.elapsed() > sc.grace {
+                    sc.viols.push(("C13".into(), format!("{:?} of worker {} was still blocked {} s after its 2 ms deadline although nothing was being delivered to it (it is supposed to report Timeout once the deadline has passed)", k, w, sc.grace.as_secs())));
+                    return sc.finish(cx.lin_budget, &mut cx.obs, &mut cx.samples, &mut cx.lin_states);
+                }
+                std::thread::sleep(Duration::from_micros(200));
+            }
         }
     }
     if sc.main.has_held_r() {
